@@ -20,7 +20,7 @@ CHECKS = {
  "C03": dict(
     level="exploration", design="2/C03",
     technique="runtime monitor: independent RFC 8010 reference decoder/encoder (no code shared with ipp) judging the library's bytes over many fresh map instances",
-    text="The bytes of to_bytes() for each generated message (T fresh instances per message, so the randomly keyed maps take different iteration orders; every other instance is built through IppAttributes::add alone, with replaced decoys, when additions can produce the message) are decoded by an independent strict RFC 8010 decoder (exact lengths, registered body widths, separators with empty name and own tag, collection bracketing, unique names, exactly one end tag, operation group first), the decoded content is compared with the mirror of what was encoded, and a reference encoder given the observed attribute order must reproduce the bytes exactly. The evidence counts distinct attribute orders actually observed; a run in which the orders did not vary is inconclusive.",
+    text="The bytes of to_bytes() for each generated message (T fresh instances per message, so the randomly keyed maps take different iteration orders; every other instance is built through IppAttributes::add alone, with replaced decoys, when additions can produce the message) are decoded by an independent strict RFC 8010 decoder (exact lengths, registered body widths, separators with empty name and own tag, collection bracketing, unique names, exactly one end tag, operation group first), the decoded content is compared with the mirror of what was encoded, and a reference encoder given the observed attribute order must reproduce the bytes exactly. The evidence reports how many cases showed more than one in-memory iteration order and more than one order on the wire across the instances (observed, not demanded: a sorting encoder or ordered containers legitimately show one).",
     note="Trusted: the reference codec (ippref), written from RFC 8010 and anchored at start-up to hand-transcribed RFC example messages."),
 
  "C02": dict(
@@ -51,7 +51,7 @@ CHECKS = {
  "C09": dict(
     level="exploration", design="2/C09",
     technique="runtime monitor: positional oracle on the reference decoder's reading of to_bytes(), each program rebuilt many times with fresh randomly keyed maps",
-    text="Every builder/constructor program of C10 (or a raw request/response) followed by 0..6 shuffled further additions (vocabulary incl. job-id, job-uri and the header attributes) is rebuilt 32 (thorough 256) times; in every instance the operation group must come first with attributes-charset 1st, attributes-natural-language 2nd, printer-uri or job-uri 3rd and job-id 4th (printer-uri + job-id). The run is inconclusive unless the order of the remaining attributes was actually seen to vary.",
+    text="Every builder/constructor program of C10 (or a raw request/response) followed by 0..6 shuffled further additions (vocabulary incl. job-id, job-uri and the header attributes) is rebuilt 32 (thorough 256) times; in every instance the operation group must come first with attributes-charset 1st, attributes-natural-language 2nd, printer-uri or job-uri 3rd and job-id 4th (printer-uri + job-id). How many cases showed more than one order of the unconstrained attributes across the rebuilt instances is reported as evidence (a sorting encoder legitimately shows one).",
     note="printer-uri together with job-uri is not generated (undefined by RFC 8011)."),
  "C10": dict(
     level="exploration", design="2/C10",
@@ -82,7 +82,7 @@ CHECKS = {
  "C16": dict(
     level="exploration", design="2/C16",
     technique="runtime monitor by complete enumeration of the finite code domains against registry tables embedded in the harness (exhaustive: true)",
-    text="All 65536 16-bit values go through StatusCode::from_u16, IppHeader::status_code, is_success and Operation::from_u16, all 256 bytes through the delimiter and value tag enums, -4..65535 through the five attribute enums, the tag emitted for every value kind is compared with the registry, every value decoded from each of the 256 tag bytes over 74 bodies must be emitted with the same tag, and every registered value of the five attribute enums must decode (except 15 finishings the pinned library does not have: unjudged). A registered code must give the variant the registry names for it, any other code 'unknown' or a symbol naming no registered code (a code missing from the harness's tables is unjudged unless its symbol is the registry's name for a different code, so that correct table extensions do not alarm), success exactly for the RFC 8011 successful codes, and every variant must cast back to the integer it was decoded from. The domain is finite and enumerated completely on every run.",
+    text="All 65536 16-bit values go through StatusCode::from_u16, IppHeader::status_code, is_success and Operation::from_u16, all 256 bytes through the delimiter and value tag enums, -4..65535 through the five attribute enums, the tag emitted for every value kind is compared with the registry, every value decoded from each of the 256 tag bytes over 74 bodies must be emitted with the same tag, and every registered value of the five attribute enums must decode (except 15 finishings the pinned library does not have: unjudged). A registered code must give the variant the registry names for it, any other code 'unknown' or a symbol naming no registered code (a code missing from the harness's tables is unjudged unless its symbol is the registry's name for a different code, so that correct table extensions do not alarm), success for the RFC 8011 successful codes and never for a code above 0x00ff (0x0003-0x00ff left open, as the property does), and every variant must cast back to the integer it was decoded from. The domain is finite and enumerated completely on every run.",
     note="Trusted: the registry tables typed in from RFC 8010/8011, PWG 5100.1 and the CUPS specification; identifier comparison is modulo case and punctuation with listed aliases."),
  "C17": dict(
     level="exploration", design="2/C17",
